@@ -211,8 +211,10 @@ def reader_events(np, exact, rl, fsets, rnd, per_set, maxn, eid0):
         reqs = [(0, 1), (0, maxn), (fb - 2, min(maxn, 5)), (L - 3, 3), (L - 1, 1), (fb, 2), (fb - 1, 1)]
         reqs += [(rnd.randrange(0, L - maxn), rnd.randrange(1, maxn + 1)) for _ in range(per_set)]
         for o, n in reqs:
-            raw = fsx.direct(2 * o, 2 * n)
             try:
+                # the requests are inside what the reader advertises; if the raw stream does not have the
+                # samples, that is a finding ("reader" event with got = -1), not a failure of the harness
+                raw = fsx.direct(2 * o, 2 * n)
                 z = r.read(o, n)
                 d = np.asarray(z.data)
             except Exception as e:  # noqa
@@ -223,6 +225,104 @@ def reader_events(np, exact, rl, fsets, rnd, per_set, maxn, eid0):
                         "rawlen": rawlen, "rate": int(round(z.sample_rate.to_value(u.Hz))), "rawrate": int(round(rawrate))})
             evs += lane_events(np, exact, raw, d, 0, 5, eid0 + len(evs),
                                {"fileset": fsx.key, "o": o, "n": n, "src": "reader"}, cj=fsx.lsb, max_lanes=3)
+    return evs
+
+
+def _status(rl, f):
+    try:
+        return "ok", f()
+    except Exception as e:  # noqa
+        return rl.status_of(e), None
+
+
+def _oracle(np, r2c, fsx, raw):
+    """real_to_complex of the WHOLE raw slice (conjugated for a lower-sideband reader): the conversion is not
+    local, so this is the only slice that gives read(o, n)"""
+    z = r2c(raw, axis=0)
+    return (z.conj() if fsx.lsb else z).astype(np.complex64)
+
+
+def _close(np, got, want, amax, N):
+    if got.shape != want.shape:
+        return False
+    if got.size == 0:
+        return True
+    budget = (64 * 2.0 ** -23 * max(1, int(np.ceil(np.log2(max(N, 2))))) + 4 * N * 2.0 ** -52) * max(1.0, amax)
+    return bool(np.abs(got.astype(np.complex128) - want.astype(np.complex128)).max() <= budget)
+
+
+def reader_length_events(np, exact, rl, r2c, fsets, eid0):
+    """real-sampled streams with odd and even raw sample counts: length, time_length, stop_time, whole-stream read,
+    last sample, refusals beyond"""
+    import astropy.units as u
+    evs = []
+    for fsx in fsets:
+        r = fsx.reader
+        with fsx.open() as fh:
+            rawlen, rawrate = int(fh.shape[0]), Fraction(float(fh.sample_rate.to_value(u.Hz)))
+        want = rawlen // 2
+        st_full, z = _status(rl, lambda: r.read(0, want))
+        flags = {}
+        if st_full == "ok":
+            d = np.asarray(z.data)
+            raw = fsx.direct(0, 2 * want)
+            flags["whole_stream_equals_conversion_of_all_pairs"] = _close(np, d, _oracle(np, r2c, fsx, raw), float(np.abs(raw).max()), 2 * want)
+        else:
+            flags["whole_stream_equals_conversion_of_all_pairs"] = False
+        st_last, zl = _status(rl, lambda: r.read(want - 1, 1))
+        if st_last == "ok":
+            raw = fsx.direct(2 * want - 2, 2)
+            flags["last_sample_is_conversion_of_last_pair"] = _close(np, np.asarray(zl.data), _oracle(np, r2c, fsx, raw), float(np.abs(raw).max()), 2)
+        evs.append({"id": eid0 + len(evs), "ev": "readerlen", "fileset": fsx.key, "rawlen": rawlen, "len": int(len(r)), "shape0": int(r.shape[0]),
+                    "rate": exact.rat(rl.hz(r.sample_rate)), "rawrate": exact.rat(rawrate),
+                    "tl": exact.rat(Fraction(float(r.time_length.to_value(u.s)))),
+                    "stop": exact.rat(rl.seconds_between(r.stop_time, r.start_time)),
+                    "full": st_full, "fulllen": int(len(z)) if st_full == "ok" else -1, "last": st_last,
+                    "beyond1": _status(rl, lambda: r.read(want, 1))[0], "beyond2": _status(rl, lambda: r.read(0, want + 1))[0],
+                    "flags": flags, "src": "reader"})
+    return evs
+
+
+def long_read_events(np, exact, rl, r2c, fsets, th, eid0):
+    """single reads of n around every power of two up to 2**15 (and a few other sizes), NumPy and Dask, several
+    offsets: each must be the conversion of the whole raw slice [2o, 2o + 2n) - whatever block size an
+    implementation might convert in, some n exceeds it.  (-1)^m Re(out[m]) = raw[2(o+m)] at sampled m is decided
+    by TLC; the comparison with the whole-slice conversion (by the function the rest of this check verifies) is a flag."""
+    evs = []
+    sizes = sorted(set([2 ** k + dlt for k in range(6, 16) for dlt in (-1, 0, 1)] + [5000, 10000, 2 * 8192 + 1, 3 * 4096 + 5]))
+    i = 0
+    for n in sizes:
+        for rep in range(3 if th else 1):
+            fsx = fsets[i % len(fsets)]
+            r = fsx.reader
+            L = fsx.outlen            # complete pairs of raw samples
+            if n > L:
+                continue
+            o = [0, 1, 777, L - n, (L - n) // 2][(i + rep) % 5]
+            o = min(max(o, 0), L - n)
+            how = "dask" if i % 3 == 2 else "numpy"
+            i += 1
+            raw = fsx.direct(2 * o, 2 * n)
+            try:
+                if how == "dask":
+                    zd = r.read(o, n, use_dask=True, chunks=(-1, -1, 2)) if i % 2 else r.dask_read(o, n)
+                    d = np.asarray(zd.data.compute())
+                else:
+                    d = np.asarray(r.read(o, n).data)
+                st = "ok"
+            except Exception as e:  # noqa
+                st, d = rl.status_of(e), np.zeros((0, 1, 4), np.complex64)
+            amax = float(np.abs(raw).max())
+            M = d.shape[0]
+            ms = sorted(set([0, 1, M - 1, M - 2, M // 2] + [(j * 7919 + n) % M for j in range(12)])) if M > 2 else list(range(M))
+            sgn = lambda m: 1.0 if m % 2 == 0 else -1.0      # noqa
+            evs.append({"id": eid0 + len(evs), "ev": "longreal", "N": 2 * n, "prec": "single", "dtype": "float32", "layout": "reader",
+                        "outlen": int(M), "amax": exact.fix(Fraction(amax)), "ms": ms,
+                        "xs": [exact.fix(Fraction(float(raw[2 * m, 0, 0]))) for m in ms],
+                        "ys": [exact.fix(Fraction(float(d[m, 0, 0].real))) for m in ms],
+                        "flags": {"read_ok": st == "ok", "equals_conversion_of_whole_slice": st == "ok" and _close(np, d, _oracle(np, r2c, fsx, raw), amax, 2 * n),
+                                  "dtype": str(d.dtype) == "complex64"},
+                        "src": "reader-long", "fileset": fsx.key, "o": o, "n": n, "how": how})
     return evs
 
 
@@ -311,9 +411,13 @@ def run(chk):
             events = random_events(np, exact, r2c, rnd, 3000 if th else 700, maxn, 0)
             written = rl.write_all(tmp)
             samples = rl.sample_files()
-            fsets = [written["vdifr"], written["vdifr_lsb"], samples["s_vdif"], samples["s_vdif_lsb"]]
+            fsets = [written["vdifr"], written["vdifr_lsb"], samples["s_vdif"], samples["s_vdif_lsb"], written["realodd"],
+                     written["realodd_lsb"], written["reallong"]]
             rev = reader_events(np, exact, rl, fsets, rnd, 12 if th else 3, 8 if not th else 16, len(events))
             events += rev
+            events += reader_length_events(np, exact, rl, r2c, fsets + [written["reallong_lsb"]], len(events))
+            events += long_read_events(np, exact, rl, r2c, [written["reallong"], written["reallong_lsb"]], th, len(events))
+            jnegs = [(c, pool.submit(rl.tlc_run, "MC_Reader", c, workers=1, timeout=300)) for c in ("Neg_Reader_block.cfg", "Neg_Reader_ceil.cfg")]
             lev = long_axis_events(np, exact, r2c, rnd, th, len(events))
             for e in lev:
                 if e["ev"] == "longshape":       # discrete field: the output must have ceil(N/2) samples along the axis
@@ -343,6 +447,11 @@ def run(chk):
             chk.notes["negative_model_rejected"] = neg.violation
             if neg.violation != "InvRealPart":
                 chk.machinery_errors.append("Neg_R2C_weight was not rejected")
+            for c, j in jnegs:       # reader models that convert block-wise / round the length up must be rejected
+                rn = j.result()
+                chk.add_tlc(c + " (must be rejected)", rn)
+                if rn.violation != "ReadIsFunctionOfArgs":
+                    chk.machinery_errors.append(c + " was not rejected")
             r, recs = jgen.result()
             chk.mc_must_hold("MC+Gen_R2C_" + ("full" if th else "quick"), r)
             chk.exhaustive = r.ok
@@ -367,6 +476,14 @@ def run(chk):
                     chk.violation("reader-path:%s:%s" % (e["fileset"], "+".join(failed)),
                                   "read(%d, %d) on %s is not R2C(raw[2o:2o+2n])%s: %s" % (e["o"], e["n"], e["fileset"], " conjugated" if e["cj"] else "", failed),
                                   {"kind": "reader", "fileset": e["fileset"], "o": e["o"], "n": e["n"]})
+                elif e["ev"] == "readerlen":
+                    chk.violation("reader-path:length:%s:%s" % ("odd" if e["rawlen"] % 2 else "even", "+".join(sorted(failed))),
+                                  "real-sampled stream %s of %d raw samples: reader length %d, %s" % (e["fileset"], e["rawlen"], e["len"], failed),
+                                  {"kind": "readerlen", "fileset": e["fileset"]})
+                elif e["ev"] == "longreal" and e.get("src") == "reader-long":
+                    chk.violation("reader-path:long-read:%s:%s" % (e["how"], "+".join(sorted(failed))),
+                                  "%s read(%d, %d) on %s is not the conversion of raw[2o : 2o+2n]: %s" % (e["how"], e["o"], e["n"], e["fileset"], failed),
+                                  {"kind": "longread", "fileset": e["fileset"], "o": e["o"], "n": e["n"], "how": e["how"]})
                 elif e["ev"] in ("longreal", "longtone"):
                     chk.violation("long-axis:%s:%s:%s" % (e["ev"], e["prec"], "+".join(sorted(failed))),
                                   "real_to_complex on %s input of length %d (%s): %s" % (e["dtype"], e["N"], e.get("layout", "tone w=%s" % e.get("w")), failed),
@@ -477,6 +594,21 @@ def replay(doc):
         b = compare(np, X.astype(c["dtype"]), r2c(X.astype(c["dtype"]), axis=c["axis"]), Y, c["dtype"], c["axis"])
         if b:
             bad.append(b[1])
+    elif c["kind"] in ("readerlen", "longread"):
+        os.makedirs(SCR, exist_ok=True)
+        tmp = tempfile.mkdtemp(prefix="c19-", dir=SCR)
+        try:
+            fs = dict(rl.write_all(tmp))
+            fs.update(rl.sample_files())
+            if c["kind"] == "readerlen":
+                evs = reader_length_events(np, exact, rl, r2c, [fs[c["fileset"]]], 0)
+            else:
+                evs = [e for e in long_read_events(np, exact, rl, r2c, [fs["reallong"], fs["reallong_lsb"]], True, 0)
+                       if e["n"] == c["n"] and e["fileset"] == c["fileset"]]
+            rej, _ = rl.validate("Trace_R2C", evs, chk, name="replay", cfg="Trace_R2C_full.cfg")
+            bad += ["%s %s: %s" % (e["ev"], e["fileset"], f) for e, f in rej]
+        finally:
+            shutil.rmtree(tmp, ignore_errors=True)
     elif c["kind"] == "long":
         import random as _r
         evs = [e for e in long_axis_events(np, exact, r2c, _r.Random(0), True, 0) if e["N"] == c["N"] and e["dtype"] == c["dtype"] and e["ev"] == c["ev"]]
